@@ -91,7 +91,9 @@ def responsesOf (j : Json) : Except String (List (List Char × List MediaDecl)) 
 
 def probes : List (List Char) :=
   ["application/json", "text/plain", "application/xml", "application/octet-stream", "text/event-stream", "image/png",
-   "application/x-www-form-urlencoded", "multipart/form-data", "application/problem+json; charset=utf-8", "weird"].map String.toList
+   "application/x-www-form-urlencoded", "multipart/form-data", "application/problem+json; charset=utf-8", "weird",
+   "application/json; charset=utf-8", "application/vnd.api+json", "application/vnd.api+json;v=2", "text/plain; charset=utf-8",
+   "application/soap+xml; charset=utf-8", "text/event-stream; charset=utf-8", "application/octet-stream; x=1"].map String.toList
 
 /-- declared key of a variant: first doc line up to the first ':' -/
 def docKey (docs : List Json) : List Char :=
@@ -131,8 +133,10 @@ def run : Handler := fun req => do
     if (impl.getObjVal? "panic").toOption.isSome then
       return verdict false (if modelBadIdent then ["KnownVariantSuffixPanic"] else []) "generator panicked while emitting the response enum"
     let some ch := implChain | return (if responses.isEmpty && implChainJ == Json.null then verdict true [] else verdict false [] "no parse_response chain emitted for an operation with responses")
-    let mut bad : Option (Nat × List Char × List Char × List Char) := none
-    let mut fallthrough := false
+    -- every wrong (status, content type) pair is looked at on its own: it is the known content-type fall-through
+    -- only if the MODEL chain gives the same wrong answer for that very pair, through a dispatch block without a hit
+    let mut bad : Option (Nat × List Char × List Char × List Char) := none          -- first unexplained pair
+    let mut badKnown : Option (Nat × List Char × List Char × List Char) := none     -- first explained pair
     for n in List.range 500 do
       let n := n + 100
       let want := specKey keys n
@@ -141,18 +145,22 @@ def run : Handler := fun req => do
         let gk := (vkey got.variant).getD []
         -- synthetic Unknown variant documents itself as `default`
         if lowerAscii gk != lowerAscii want then
-          if bad.isNone then bad := some (n, ct, want, got.variant)
-          -- is it the content-type fall-through of a multi-media status block (predicted by the model)?
-          match modelChain with
-          | some mch =>
-            if evalChain mch n ct == got then
-              let hit := mch.handlers.any fun (c, b) => evalCond n c && (match b with | .dispatch cs => (firstCase ct cs).isNone | _ => false)
-              if hit then fallthrough := true
-          | none => pure ()
-    match bad with
-    | none => return verdict true []
-    | some (n, ct, want, gotv) =>
-      let known := (if nonCanon then ["KnownNonCanonicalKey"] else []) ++ (if fallthrough then ["KnownContentFallthrough"] else [])
+          let explained := match modelChain with
+            | some mch =>
+              evalChain mch n ct == got &&
+                mch.handlers.any fun (c, b) => evalCond n c && (match b with | .dispatch cs => (firstCase ct cs).isNone | _ => false)
+            | none => false
+          if explained then
+            if badKnown.isNone then badKnown := some (n, ct, want, got.variant)
+          else
+            if bad.isNone then bad := some (n, ct, want, got.variant)
+    match bad, badKnown with
+    | none, none => return verdict true []
+    | some (n, ct, want, gotv), _ =>
+      let known := (if nonCanon then ["KnownNonCanonicalKey"] else [])
+      return verdict false known s!"status {n} content-type {String.ofList ct}: expected a variant declared for key {String.ofList want}, parser picks {String.ofList gotv}"
+    | none, some (n, ct, want, gotv) =>
+      let known := (if nonCanon then ["KnownNonCanonicalKey"] else []) ++ ["KnownContentFallthrough"]
       return verdict false known s!"status {n} content-type {String.ofList ct}: expected a variant declared for key {String.ofList want}, parser picks {String.ofList gotv}"
   let nmulti := (responses.filter fun r => r.2.length > 1).length
   let branch := s!"k{keys.length}m{nmulti}" ++ (if nonCanon then "+noncanon" else "")
